@@ -172,6 +172,11 @@ def step (s : VSt) (toks : List String) : String × VSt :=
     | "emp", [p, v] => runOp s (idx (emplace cfg c (nat p % (sz+1)) (.copy (.lit (nat v)))))
     | "emps", [p, i] => if sz == 0 then skip else
         runOp s (idx do emplace cfg c (nat p % (sz+1)) (.copy (← selfRef cfg c (nat i % sz))))
+    | "empa", [p, i] => if sz == 0 then skip else
+        -- constructor argument = a reference to the value stored inside element i: read when the temporary is built
+        runOp s (idx do
+          let v ← deref (← selfRef cfg c (nat i % sz))
+          emplace cfg c (nat p % (sz+1)) (.copy (.lit v)))
     | "era", [p] => if sz == 0 then skip else runOp s (idx (eraseOne cfg c (nat p % sz)))
     | "eran", [p, q] =>
         let p' := nat p % (sz+1)
